@@ -4,6 +4,7 @@ import (
 	"bytes"
 	"context"
 	"crypto/sha256"
+	"errors"
 	"fmt"
 	"io"
 	"log/slog"
@@ -14,6 +15,7 @@ import (
 	"github.com/aws/aws-sdk-go-v2/aws/retry"
 	"github.com/aws/aws-sdk-go-v2/config"
 	"github.com/aws/aws-sdk-go-v2/service/s3"
+	s3types "github.com/aws/aws-sdk-go-v2/service/s3/types"
 	awshttp "github.com/aws/smithy-go/transport/http"
 	"github.com/prometheus/client_golang/prometheus"
 	"github.com/prometheus/client_golang/prometheus/promhttp"
@@ -92,6 +94,10 @@ func (b *ETagBackend) Fetch(ctx context.Context, logID [sha256.Size]byte) (Locke
 		options.APIOptions = append(options.APIOptions, awshttp.AddHeaderValue("x-tigris-cas", "true"))
 	})
 	if err != nil {
+		var noSuchKey *s3types.NoSuchKey
+		if errors.As(err, &noSuchKey) {
+			return nil, fmt.Errorf("%w: %q not in ETag backend", ErrLogNotFound, key)
+		}
 		return nil, fmt.Errorf("failed to fetch %q from ETag backend: %w", key, err)
 	}
 	defer out.Body.Close()
